@@ -96,6 +96,8 @@ impl Tokenizer {
         C: ConnectorCost,
     {
         lattice.reset(sent.len_char());
+        #[cfg(vibrato_verif)]
+        crate::verif::yield_point("lattice:reset");
 
         // These variables indicate the starting character positions of words currently stored
         // in the lattice. If ignore_space() is unset, these always have the same values, and
@@ -107,6 +109,8 @@ impl Tokenizer {
         let mut start_word = 0;
 
         while start_word < sent.len_char() {
+            #[cfg(vibrato_verif)]
+            crate::verif::yield_point("lattice:position");
             if !lattice.has_previous_node(start_node) {
                 start_word += 1;
                 start_node = start_word;
@@ -135,6 +139,8 @@ impl Tokenizer {
             start_node = start_word;
         }
 
+        #[cfg(vibrato_verif)]
+        crate::verif::yield_point("lattice:before_eos");
         lattice.insert_eos(start_node, connector);
     }
 
